@@ -193,6 +193,11 @@ func Main(t *testing.T, c Check) {
 	states := map[string]struct{}{}
 	seenSig := map[string]*violationRec{}
 	fmt.Printf("VERIF_SEED=%d tier=%s worker=%d/%d plans=%d\n", seed, tier, wi, wn, total)
+	var hashLog *os.File
+	if hl := os.Getenv("VERIF_HASHLOG"); hl != "" {
+		hashLog, _ = os.Create(hl)
+		defer hashLog.Close()
+	}
 
 	for i := wi; i < total; i += wn {
 		if time.Since(start) > deadline {
@@ -213,6 +218,9 @@ func Main(t *testing.T, c Check) {
 		for _, p := range runs {
 			o := c.Exec(t, p)
 			res.Evaluations++
+			if hashLog != nil {
+				fmt.Fprintf(hashLog, "%d %d %s %s %s %s\n", sub, res.Evaluations, o.LogHash, o.StateHash, o.Signature, o.Inconclusive)
+			}
 			res.Steps += int64(o.Steps)
 			res.SimNS += o.SimNS
 			for k, v := range o.Probes {
